@@ -168,6 +168,21 @@ def ast_mutants(p, rng, n):
     return out
 
 
+def text_wellformed(src):
+    """(kind, source) variants that stay well-formed: the explicit counterparts of the type-definition mutants"""
+    TD = ("Wir definieren eine Hausnummer als eine Zahl.\nWir definieren eine Postleitzahl als eine Zahl.\nDie Hausnummer hn_ok ist 5 als Hausnummer.\n"
+          "Die Postleitzahl pz_ok ist 10115 als Postleitzahl.\n")
+    FN = ("Die Funktion nimm_hn mit dem Parameter h vom Typ Hausnummer, gibt eine Zahl zurück, macht:\n\tGib h als Zahl zurück.\nUnd kann so benutzt werden:\n\t\"nimm_hn <h>\"\n")
+    out = []
+    for kind, snippet in [("typedef-explicit-conversions", "Die Hausnummer hn ist 7 als Hausnummer.\nDie Zahl zz_td ist hn als Zahl.\nSpeichere 8 als Hausnummer in hn_ok.\n"
+                                                           "Die Postleitzahl pz ist (hn als Zahl) als Postleitzahl.\n"),
+                          ("typedef-argument-and-return", FN + "Die Zahl r_td ist nimm_hn hn_ok.\nDie Funktion gib_td mit dem Parameter p vom Typ Zahl, gibt eine Hausnummer zurück, macht:\n"
+                                                               "\tGib p als Hausnummer zurück.\nUnd kann so benutzt werden:\n\t\"gib_td <p>\"\nDie Hausnummer hn2 ist gib_td 4.\n"),
+                          ("typedef-list", "Die Hausnummer Liste hl ist eine Liste, die aus hn_ok, (2 als Hausnummer) besteht.\n")]:
+        out.append((kind, src + TD + snippet))
+    return out
+
+
 def text_mutants(src, rng):
     """(kind, source) variants that are ill-formed by construction, made on the printed program"""
     out = []
@@ -204,6 +219,21 @@ def text_mutants(src, rng):
                                                           "Die Funktion aendere2 mit dem Parameter r vom Typ Zahlen Referenz, gibt nichts zurück, macht:\n"
                                                           "\tSpeichere 1 in r.\nUnd kann so benutzt werden:\n\t\"aendere2 <r>\"\naendere2 (KONST_M an der Stelle 1).\n"))
     out.append(("character-of-konstante-text", src + 'Die Konstante KONST_T ist "abc".\nSpeichere \'x\' in KONST_T an der Stelle 1.\n'))
+    # type definitions are types of their own: a value of the base type or of another definition of the same base is a value of a
+    # wrong type in every position (initialiser, assigned value, argument, returned value, list element)
+    TD = ("Wir definieren eine Hausnummer als eine Zahl.\nWir definieren eine Postleitzahl als eine Zahl.\nDie Hausnummer hn_ok ist 5 als Hausnummer.\n"
+          "Die Postleitzahl pz_ok ist 10115 als Postleitzahl.\n")
+    FN = ("Die Funktion nimm_hn mit dem Parameter h vom Typ Hausnummer, gibt eine Zahl zurück, macht:\n\tGib h als Zahl zurück.\nUnd kann so benutzt werden:\n\t\"nimm_hn <h>\"\n")
+    def ret(ty, param, val):
+        return ("Die Funktion gib_td mit dem Parameter p vom Typ %s, gibt eine %s zurück, macht:\n\tGib %s zurück.\nUnd kann so benutzt werden:\n\t\"gib_td <p>\"\n" % (param, ty, val))
+    for kind, snippet in [("typedef-initialiser-of-base-type", "Die Hausnummer hn ist 5.\n"), ("typedef-initialiser-of-sibling", "Die Postleitzahl pz ist hn_ok.\n"),
+                          ("base-initialiser-of-typedef", "Die Zahl zz_td ist hn_ok.\n"), ("typedef-assigned-base", "Speichere 6 in hn_ok.\n"),
+                          ("typedef-assigned-sibling", "Speichere pz_ok in hn_ok.\n"), ("typedef-argument-of-base-type", FN + "Die Zahl r_td ist nimm_hn 5.\n"),
+                          ("typedef-argument-of-sibling", FN + "Die Zahl r_td ist nimm_hn pz_ok.\n"), ("typedef-returned-base", ret("Hausnummer", "Zahl", "p")),
+                          ("typedef-returned-sibling", ret("Hausnummer", "Postleitzahl", "p")), ("base-returned-typedef", ret("Zahl", "Hausnummer", "p")),
+                          ("typedef-list-element-of-base-type", "Die Hausnummer Liste hl ist eine Liste, die aus 1, 2 besteht.\n"),
+                          ("typedef-operand-of-builtin-operator", "Die Zahl s_td ist hn_ok plus 1.\n")]:
+        out.append((kind, src + TD + snippet))
     out.append(("return-outside-function", src + "Gib 1 zurück.\n"))
     out.append(("condition-not-wahrheitswert", src + "Wenn 1, dann:\n\tSchreibe 1.\n"))
     return out
